@@ -6,7 +6,8 @@ d=json.load(open(p))
 prop,sig,status,commit=sys.argv[1:5]; what=' '.join(sys.argv[5:])
 e={"property":prop,"signature":sig,"status":status,"what":(f"fixed: property={prop} {commit} " if status=="fixed" else "")+what}
 if commit!='-': e["commit"]=commit
-d["findings"]=[f for f in d["findings"] if not (f["property"]==prop and f["signature"]==sig)]+[e]
+assert not any(f["property"]==prop and f["signature"]==sig for f in d["findings"]), "signature already recorded: add a #suffix"
+d["findings"].append(e)
 s=json.dumps(d,indent=1,ensure_ascii=False)
 open(p,'w').write(s+"\n")
 print("findings:",len(d["findings"]))
